@@ -3,6 +3,7 @@
 from __future__ import annotations
 
 import ast
+import json
 import time
 import traceback
 
@@ -250,7 +251,53 @@ def _exc_is(it, ecls, target) -> bool:
     return it.class_subclass(ecls, VExtClass(target))
 
 
-def verify_function(repo, registry, qualname, feas_ms=1500, solve_now=True, z3_ms=None) -> FunctionReport:
+_JOB = None
+
+
+def _path_job(prefix):
+    """Explore one path and discharge its obligations (runs in a forked worker)."""
+    repo, registry, func, contract, feas_ms, z3_ms = _JOB
+    out = {"alternatives": [], "records": [], "dropped": [], "inlined": [], "called": [],
+           "outcome": None, "unsupported": [], "errors": [], "solver": 0.0}
+    try:
+        path, it, info = run_path(repo, registry, func, contract, prefix, feas_ms)
+    except Unsupported as e:
+        out["unsupported"].append(str(e))
+        return out
+    except RecursionError:
+        out["unsupported"].append("recursion limit in symbolic execution")
+        return out
+    except Exception as e:  # checker bug: reported, never a verdict
+        out["errors"].append(f"{type(e).__name__}: {e}\n" + traceback.format_exc(limit=8))
+        return out
+    out["alternatives"] = path.alternatives
+    out["dropped"] = sorted(path.dropped)
+    out["inlined"] = sorted(it.inlined)
+    out["called"] = sorted(it.called)
+    out["outcome"] = info["outcome"]
+    out["solver"] = path.solver_time
+    heap = it.frames[0].entry_heap if it.frames else path.heap
+    global _PENDING, _Z3MS
+    _Z3MS = z3_ms
+    _PENDING = [({}, ob, info.get("inputs"), heap, list(path.trail)) for ob in path.obligations]
+    global _OBS
+    _OBS = path.obs_log
+    for i, ob in enumerate(path.obligations):
+        rec = {"name": ob.name, "line": ob.line, "kind": ob.kind, "note": ob.note}
+        res = _solve_one(i)
+        rec.update(res)
+        if res["status"] == "refuted":
+            rec["trail"] = list(path.trail)
+        out["solver"] += res.get("seconds", 0)
+        out["records"].append(rec)
+    return out
+
+
+def verify_function(repo, registry, qualname, feas_ms=1500, solve_now=True, z3_ms=None, procs=None) -> FunctionReport:
+    import multiprocessing as mp
+    import os
+
+    global _JOB
     rep = FunctionReport(qualname)
     t0 = time.time()
     contract = registry.contracts[qualname]
@@ -262,55 +309,150 @@ def verify_function(repo, registry, qualname, feas_ms=1500, solve_now=True, z3_m
     rep.line = node.lineno
     rep.hash = source_hash(node)
     func = VFunc(node, module, owner=cls, name=node.name)
-    worklist = [[]]
-    seen_paths = 0
+    _JOB = (repo, registry, func, contract, feas_ms, z3_ms)
+    procs = procs or int(os.environ.get("PYVC_PROCS", "16"))
     outcomes = {}
-    while worklist:
-        prefix = worklist.pop()
-        seen_paths += 1
-        if seen_paths > MAX_PATHS:
-            rep.unsupported.append(f"more than {MAX_PATHS} paths")
-            break
-        try:
-            path, it, info = run_path(repo, registry, func, contract, prefix, feas_ms)
-        except Unsupported as e:
-            rep.unsupported.append(str(e))
-            continue
-        except RecursionError:
-            rep.unsupported.append("recursion limit in symbolic execution")
-            continue
-        except Exception as e:  # checker bug: reported, never a verdict
-            rep.errors.append(f"{type(e).__name__}: {e}\n" + traceback.format_exc(limit=6))
-            continue
-        worklist.extend(path.alternatives)
-        rep.dropped |= path.dropped
-        rep.inlined |= it.inlined
-        rep.called |= it.called
-        rep.solver_seconds += path.solver_time
-        outcomes[info["outcome"]] = outcomes.get(info["outcome"], 0) + 1
-        for ob in path.obligations:
-            rec = {"name": ob.name, "line": ob.line, "kind": ob.kind, "note": ob.note}
-            if solve_now:
-                res = _solve.solve(ob.assumptions, ob.goal, z3_ms=z3_ms)
-                rec.update(status=res["status"], backend=res["backend"], seconds=round(res["seconds"], 3))
-                rep.solver_seconds += res["seconds"]
-                if res["status"] == "refuted":
-                    cex = {}
-                    m = res.get("model")
-                    if m is not None and info.get("inputs"):
-                        for pn, pv in info["inputs"].items():
-                            try:
-                                cex[pn] = _solve.value_to_py(m, pv, it.frames[0].entry_heap if it.frames else path.heap)
-                            except Exception as e:  # pragma: no cover
-                                cex[pn] = f"<unprintable: {e}>"
-                    rec["counterexample"] = cex
-                    rec["trail"] = list(path.trail)
-                elif res["status"] == "unknown":
-                    rec["reason"] = res.get("reason", "")
-            else:
-                rec["ob"] = ob
-            rep.obligations.append(rec)
+    seen_paths = 0
+
+    def absorb(out):
+        rep.unsupported.extend(out["unsupported"])
+        rep.errors.extend(out["errors"])
+        rep.dropped.update(out["dropped"])
+        rep.inlined.update(out["inlined"])
+        rep.called.update(out["called"])
+        rep.solver_seconds += out["solver"]
+        if out["outcome"] is not None or out["records"]:
+            outcomes[out["outcome"]] = outcomes.get(out["outcome"], 0) + 1
+        rep.obligations.extend(out["records"])
+
+    if procs <= 1:
+        worklist = [[]]
+        while worklist:
+            prefix = worklist.pop()
+            seen_paths += 1
+            if seen_paths > MAX_PATHS:
+                rep.unsupported.append(f"more than {MAX_PATHS} paths")
+                break
+            out = _path_job(prefix)
+            worklist.extend(out["alternatives"])
+            absorb(out)
+    else:
+        ctx = mp.get_context("fork")
+        with ctx.Pool(procs) as pool:
+            outstanding = [pool.apply_async(_path_job, ([],))]
+            seen_paths = 1
+            while outstanding:
+                nxt = []
+                progressed = False
+                for r in outstanding:
+                    if r.ready():
+                        progressed = True
+                        out = r.get()
+                        absorb(out)
+                        for alt in out["alternatives"]:
+                            seen_paths += 1
+                            if seen_paths > MAX_PATHS:
+                                if f"more than {MAX_PATHS} paths" not in rep.unsupported:
+                                    rep.unsupported.append(f"more than {MAX_PATHS} paths")
+                                continue
+                            nxt.append(pool.apply_async(_path_job, (alt,)))
+                    else:
+                        nxt.append(r)
+                outstanding = nxt
+                if not progressed:
+                    time.sleep(0.01)
+    rep.obligations.sort(key=lambda r: (r["name"], r.get("line") or 0, str(r.get("trail"))))
     rep.paths = seen_paths
     rep.outcomes = outcomes
     rep.seconds = time.time() - t0
     return rep
+
+
+# ----------------------------------------------------------------------------
+# parallel discharge: fork workers share the in-memory z3 terms
+
+_PENDING = None
+_Z3MS = None
+_OBS = None
+
+
+def conjuncts(goal, depth=0):
+    if z3.is_and(goal) and depth < 6:
+        out = []
+        for c in goal.children():
+            out += conjuncts(c, depth + 1)
+        return out
+    if z3.is_quantifier(goal) and goal.is_forall() and depth < 6:
+        body = goal.body()
+        if z3.is_and(body):
+            vs = [z3.Const(goal.var_name(i), goal.var_sort(i)) for i in range(goal.num_vars())]
+            # rebuild one forall per conjunct
+            out = []
+            for c in body.children():
+                inst = z3.substitute_vars(c, *reversed(vs))
+                out += conjuncts(z3.ForAll(vs, inst), depth + 1)
+            return out
+    return [goal]
+
+
+def _solve_one(idx):
+    rec, ob, inputs, heap, trail = _PENDING[idx]
+    parts = conjuncts(ob.goal)
+    total = 0.0
+    backends = set()
+    worst = "proved"
+    out = {}
+    for pi, g in enumerate(parts):
+        res = _solve.solve(ob.assumptions, g, z3_ms=_Z3MS)
+        total += res["seconds"]
+        backends.add(res["backend"])
+        if res["status"] == "refuted":
+            worst = "refuted"
+            cex = {}
+            m = res.get("model")
+            if m is not None and inputs:
+                for pn, pv in inputs.items():
+                    try:
+                        cex[pn] = _solve.value_to_py(m, pv, heap)
+                    except Exception as e:  # pragma: no cover
+                        cex[pn] = f"<unprintable: {e}>"
+            if m is not None and _OBS:
+                obs = []
+                seen = set()
+                for label, oargs, oval in _OBS[:200]:
+                    try:
+                        item = {"f": label, "args": [_solve.value_to_py(m, a, heap) for a in oargs],
+                                "value": _solve.value_to_py(m, oval, heap)}
+                    except Exception:
+                        continue
+                    k = json.dumps(item, sort_keys=True, default=str)
+                    if k not in seen:
+                        seen.add(k)
+                        obs.append(item)
+                cex["$ghost"] = obs
+            out["counterexample"] = cex
+            out["conjunct"] = f"{pi + 1}/{len(parts)}: {str(g)[:300]}"
+            break
+        if res["status"] == "unknown":
+            worst = "unknown"
+            out["reason"] = res.get("reason", "")
+            out["conjunct"] = f"{pi + 1}/{len(parts)}: {str(g)[:300]}"
+            # keep going: a later conjunct may be refuted outright
+    out.update(status=worst, backend="+".join(sorted(backends)), seconds=round(total, 3), conjuncts=len(parts))
+    return out
+
+
+def parallel_solve(pending, z3_ms=None, procs=None):
+    import multiprocessing as mp
+    import os
+
+    global _PENDING, _Z3MS
+    _PENDING, _Z3MS = pending, z3_ms
+    if not pending:
+        return []
+    procs = procs or int(os.environ.get("PYVC_PROCS", "16"))
+    if procs <= 1 or len(pending) == 1:
+        return [_solve_one(i) for i in range(len(pending))]
+    ctx = mp.get_context("fork")
+    with ctx.Pool(min(procs, len(pending))) as pool:
+        return pool.map(_solve_one, range(len(pending)), chunksize=1)
